@@ -1,17 +1,51 @@
-"""property id -> units and reporting metadata"""
+"""property id -> units and reporting metadata (single source for MANIFEST.json)"""
 from units import specificity, best, fragments
+
+A_TABLES = ('compiler::build_dispatch_tables (grouping of classes by applicability mask, strides, recursion order) '
+            'and assign_slots / assign_tree_slots / assign_lattice_slots are NOT under contract '
+            '(std::map<dynamic_bitset,...>, unordered_set, recursion over containers: out of reach of the C front end)')
+A_AUGMENT = ('compiler::augment_classes / calculate_covariant_classes / augment_methods are NOT under contract: '
+             'cov is taken as an arbitrary relation with the stated order axioms')
+
+NOT_APPLICABLE = {
+    'C08': 'inheritance inference is an mp11 metaprogram plus unordered_map / deque / std::sort code in augment_classes; '
+           'no function within CBMC\'s C subset carries the property, a rule-based C translation would be a hand model (DESIGN.md section 7)',
+    'C11': 'argument adjustment is static_cast / dynamic_cast / std::forward / shared_ptr ownership in thunk templates: '
+           'C++ language semantics with no body in the verifier\'s language (DESIGN.md section 7)',
+    'C14': 'policy isolation is the identity of template static data members and mp11 rebind/replace/remove; in the C extraction '
+           'a policy\'s statics are one struct by construction, so no contract can confirm or refute sharing (DESIGN.md section 7)',
+    'C19': 'name extraction is std::regex and std::string / std::set iterator code writing to an ostream; outside the C subset '
+           '(a bounded stand-in was considered and not built) (DESIGN.md section 7)',
+    'C20': 'pure template metaprogramming (mp_product, aggregate splitting); nothing executes at run time except add_function (DESIGN.md section 7)',
+}
 
 PROPS = {
     'C03': {
         'units': [specificity.jobs, best.jobs, fragments.jobs],
         'level': 'proof',
-        'unverified': [],
+        'technique': 'CBMC/DFCC function + loop contracts on extracted is_base / is_more_specific (unbounded class universe); '
+                     'bounded CBMC on extracted best() and the next-selection fragment',
+        'level_text': 'is_base and is_more_specific (real bodies, extracted each run) are proved against the statement\'s '
+                      'definitions of "strictly more general" and "more specific" for all class graphs (uninterpreted cov) and arity <= 16 by loop '
+                      'invariants; best() and the fragment of build_dispatch_tables that selects and stores next are checked '
+                      'bounded (<= 4/5 candidates, <= 3/4 definitions, all relations, all orders, stale prior values of next)',
+        'level_note': 'bounded parts are not proofs; std::vector / <algorithm> semantics trusted; that update reaches the fragment for every method '
+                      'and that macros.hpp passes the right next variable to add_function is not covered',
+        'design_ref': 'DESIGN.md section 6 C03',
+        'unverified': [A_AUGMENT, 'macros.hpp / add_function plumbing of the next variable'],
         'assumptions': [],
     },
     'C17': {
         'units': [fragments.jobs],
         'level': 'proof',
-        'unverified': [],
+        'technique': 'CBMC/DFCC contract on extracted generic_compiler::accumulate; bounded CBMC on the extracted dim==0 step of build_dispatch_table with best() replaced by its contract',
+        'level_text': 'accumulate is proved (loop-free, all values): flags count methods with a non-zero counter, cells add up. '
+                      'The extracted dispatch-cell step is checked for <= 3/4 definitions, every mask / relation / prior counter value: '
+                      'a gap or ambiguity is counted exactly when it occurs, the concrete variants exactly when every dimension\'s group holds a '
+                      'concrete class, and the flag is threaded through the recursive call',
+        'level_note': 'that cells are in bijection with tuples of class groups and dispatch_table.size() == cells (recursion over std::map) is not under contract',
+        'design_ref': 'DESIGN.md section 6 C17',
+        'unverified': [A_TABLES, 'cells / concrete_cells products (compiler.hpp:863-890)'],
         'assumptions': [],
     },
 }
